@@ -9,6 +9,7 @@ def main (args : List String) : IO UInt32 := do
   | ["genwsdl", seed, count, root] => ZeepVerif.Driver.SpecGen.main seed.toNat! count.toNat! root false false true
   | ["genwsdlcollide", seed, count, root] => ZeepVerif.Driver.SpecGen.main seed.toNat! count.toNat! root false true true
   | ["genwsdlmulti", seed, count, root] => ZeepVerif.Driver.SpecGen.main seed.toNat! count.toNat! root false false true true
+  | ["genplain", seed, count, root] => ZeepVerif.Driver.SpecGen.main seed.toNat! count.toNat! root false false false false false true
   | ["gentopo", seed, count, root] => ZeepVerif.Driver.SpecGen.main seed.toNat! count.toNat! root false false false false true
   | ["gencollide", seed, count, root] => ZeepVerif.Driver.SpecGen.main seed.toNat! count.toNat! root false true
   | _ => IO.eprintln "usage: zvspec c06 < lines"; return 2
